@@ -17,6 +17,7 @@ import (
 	"sort"
 	"strconv"
 	"strings"
+	"sync"
 	"sync/atomic"
 	"testing"
 	"time"
@@ -312,7 +313,7 @@ func c10Run(c c10Case) (v vVerdict) {
 	writing := false
 	failNext := ""
 	nchan := c.Nchan
-	concurrentStops, postSelfStops, restarts := 0, 0, 0
+	concurrentStops, postSelfStops, restarts, forced := 0, 0, 0, 0
 	defer func() {
 		if e.udpStop != nil {
 			close(e.udpStop)
@@ -471,6 +472,42 @@ func c10Run(c c10Case) (v vVerdict) {
 			if e.scripted == nil || !running {
 				continue
 			}
+			if op.N < 0 {
+				// forced interleaving: the run's end is held back until Stop() announces (in its log line) that it found the
+				// source Active, and is then let through right there, in the middle of Stop
+				park := make(chan struct{})
+				var once sync.Once
+				e.mon.setPark(park)
+				d0 := atomic.LoadInt32(&e.mon.deactivated)
+				e.scripted.ctl <- op.Kind
+				deadline := time.Now().Add(5 * time.Second)
+				for atomic.LoadInt32(&e.mon.parked) == 0 && time.Now().Before(deadline) {
+					time.Sleep(100 * time.Microsecond)
+				}
+				vSetLogHook(func(line string) {
+					if strings.Contains(line, "was called to stop an active source") {
+						once.Do(func() { close(park) })
+						until := time.Now().Add(5 * time.Millisecond)
+						for atomic.LoadInt32(&e.mon.deactivated) == d0 && time.Now().Before(until) {
+							time.Sleep(50 * time.Microsecond)
+						}
+					}
+				})
+				k := op.K
+				if k < 1 {
+					k = 1
+				}
+				postSelfStops++
+				bad := doStops(i, k, op.Stagger, "Stop entered while the source is ending itself ("+op.Kind+")")
+				vSetLogHook(nil)
+				once.Do(func() { close(park) })
+				e.mon.setPark(nil)
+				if bad != nil {
+					return *bad
+				}
+				forced++
+				continue
+			}
 			e.scripted.ctl <- op.Kind
 			if op.N == 0 { // Stop only after the source is seen Inactive
 				deadline := time.Now().Add(5 * time.Second)
@@ -571,6 +608,9 @@ func c10Run(c c10Case) (v vVerdict) {
 	if restarts > 0 {
 		v.Classes = append(v.Classes, "restarted")
 	}
+	if forced > 0 {
+		v.Classes = append(v.Classes, "forced-stop-vs-end-interleaving")
+	}
 	v.Classes = append(v.Classes, "source-"+c.Source)
 	return v
 }
@@ -620,7 +660,7 @@ func c10Gen(t *rapid.T) c10Case {
 			op := stops()
 			op.Op = "selfend"
 			op.Kind = rapid.SampledFrom([]string{"error", "close"}).Draw(t, "endkind")
-			op.N = rapid.SampledFrom([]int{0, 1, 1, 2, 5, 20}).Draw(t, "stopwhen") // 0: after seen inactive; 1: at once; n: n x 100 us later
+			op.N = rapid.SampledFrom([]int{0, 1, 1, 2, 5, 20, -1, -1, -1}).Draw(t, "stopwhen") // 0: after seen inactive; 1: at once; n: n x 100 us later; -1: forced into the middle of Stop
 			c.Ops = append(c.Ops, op)
 		} else {
 			c.Ops = append(c.Ops, stops())
